@@ -340,7 +340,7 @@ def main(tier: str, seed: int):
     sess.assume("edge weights are numbers (incl. NaN/inf/bool/int); non-numeric weights are outside the generated domain")
     sess.assume("single writer per directory: discovery among several state_* files with equal mtimes is not exercised")
     sess.assume("codec 'none' only (zstandard is not installed in this image)")
-    total = 600 if tier == "quick" else 30000
+    total = 600 if tier == "quick" else 100000
     nchunks = par.NWORK * (1 if tier == "quick" else 4)
     per = max(1, total // nchunks)
     for ex in par.pmap(_chunk, [(tier, seed, i, per) for i in range(nchunks)]):
